@@ -26,9 +26,15 @@ func detEnv(n *tree.Node) *cenv {
 	if n.DetCtor == nil {
 		return &cenv{free: n.DetBind}
 	}
-	init := &cenv{}
-	ctor := &cenv{args: n.DetCtor.Call.Args, parent: init}
-	return &cenv{free: n.DetBind, parent: ctor}
+	env := &cenv{} // the package initialiser
+	chain := n.DetChain
+	if len(chain) == 0 {
+		chain = []*ssa.Call{n.DetCtor}
+	}
+	for _, call := range chain {
+		env = &cenv{args: call.Call.Args, parent: env} // the constructor this call enters
+	}
+	return &cenv{free: n.DetBind, parent: env}
 }
 
 // fold returns []byte, string or int64.
